@@ -163,7 +163,7 @@ impl Ctx {
             let lo = k * n / nshards;
             let hi = (k + 1) * n / nshards;
             let path = format!("{}/cases_{k}.v", self.out);
-            let mut f = fs::File::create(&path).unwrap();
+            let mut f = std::io::BufWriter::new(fs::File::create(&path).unwrap());
             writeln!(f, "{}", self.header).unwrap();
             writeln!(f, "Definition cases : list {} := [", self.case_type).unwrap();
             for (j, i) in (lo..hi).enumerate() {
@@ -173,7 +173,7 @@ impl Ctx {
             writeln!(f, "Eval vm_compute in (bad_indices {} cases).", self.checker).unwrap();
             index.push(json!({"shard": k, "lo": lo, "hi": hi}));
         }
-        let mut jl = fs::File::create(format!("{}/cases.jsonl", self.out)).unwrap();
+        let mut jl = std::io::BufWriter::new(fs::File::create(format!("{}/cases.jsonl", self.out)).unwrap());
         for (i, r) in self.case_replays.iter().enumerate() {
             writeln!(jl, "{}", json!({"i": i, "term": self.cases[i], "input": r})).unwrap();
         }
